@@ -24,11 +24,12 @@ MANIFEST = dict(
           "foreach (downto/using), switch with when value lists / ranges and else, if/elseif/else, arbitrarily nested. C06_decl_roundtrip: class/module "
           "header, uses, const (multilang), type declarations, fields (annotation, memory, any type, member modifiers, absolute), comments, proc/func "
           "with plain or method#event names, parameter lists, modifiers private/protected/final/override/forward/external (forward/external: no body). "
-          "C06_file_roundtrip: for every derivable file, parse_gold ITSELF (memoised, default fuel) returns exactly the derived declarations, every "
+          "C06_type/stmt/decl/file_encloses: for lexer-ordered tokens every node of every derivable declaration (types, parameters, statements nested "
+          "to any depth) lies inside its tokens and encloses its children. C06_file_roundtrip: for every derivable file, parse_gold ITSELF (memoised, default fuel) returns exactly the derived declarations, every "
           "token consumed, zero diagnostics; C06_file_roundtrip_any: the same for memoisation on/off and ANY fuel above the number of tokens -- no "
           "hypothesis on the derivation level (C06_parse_gold_fuel_independent: C07's memo simulation at two independent fuel levels). "
           "CORRESPONDENCE ONLY (a test): OQL select/fetch statements, annotations in front of declarations other than fields, composed types "
-          "(T + (a, b)), range enclosure / position lookup for statement and declaration nodes (proved for expression trees only), the lexer "
+          "(T + (a, b)), the position lookup outside expression trees (range enclosure IS proved for every derivable construct: C06_file_encloses), the lexer "
           "(text -> tokens) in front of the parser, random layout. The test: all ordered operator pairs of the regenerated ladder plain and with both "
           "bracketings (expected trees from the property's own precedence table), each of the 20 statement forms inside every body of each of the 7 "
           "block statements, random generated programs (every construct above, incl. untyped parameters, annotations, uses/type/var-absolute in bodies) "
@@ -45,7 +46,9 @@ MANIFEST = dict(
           "statement, a block terminator or a top-level proc/func yields no AstComment node (exp_token skips comments), elsewhere the node is kept."),
     design="6 C06",
     engines=[dict(name="E-parse", path="harness/src/eng_parse.rs, treedump.rs + coq/extract/eng_parse.ml, tree_io.ml",
-                  kind_free_text="differential: lex+parse_gold vs extracted Coq lexer+parser model on generated programs; independent oracle: expected tree shape from vlib/goldgen.py + checks/c06gen.py, range enclosure, search_encasing_node re-implemented over the dump")],
+                  kind_free_text="differential: lex+parse_gold vs extracted Coq lexer+parser model on generated programs; independent oracle: expected tree shape from vlib/goldgen.py + checks/c06gen.py, range enclosure, search_encasing_node re-implemented over the dump"),
+             dict(name="E-encase", path="harness/src/eng_encase.rs + coq/extract/eng_encase.ml, Extract_encase.v (Model/Encase.v)",
+                  kind_free_text="differential: the real manager/utils.rs:search_encasing_node on the annotated mirror of the parsed tree vs the extracted model Encase.search on the dumped tree, at the start / middle / end of every token-carrying node (terminals, type names, parameter / field / record-field / variant / declaration names); oracle: the answer is that node")],
 )
 ASSUMPTIONS = [
     "construct-level theorems (expressions, types, statements, declarations) are about the un-memoised grammar (cmemo = false); the file-level theorem C06_file_roundtrip is about the memoised parse_gold, via C07's simulation (Proofs/FuelIndep.v)",
@@ -88,10 +91,19 @@ def build_cases(ctx, levels):
     rnd = []
     for i in range(n):
         t, kids, methods = g.gen_program()
+        if rng.random() < 0.5:
+            t = G.comment_terminators(rng, t, 0.35)
         if rng.random() < 0.6:
             t = G.relayout(rng, t)
         rnd.append(("random", None, t, kids))
     add("random_programs", rnd)
+    # a comment in front of EVERY block terminator (with and without else parts): the statement forms nested in block forms again,
+    # and hand-written switch blocks; comments are layout, so the expected trees are unchanged
+    tc = []
+    for (k, info, text, exp) in G.nested_programs("%s-tc" % ctx.seed, 2 if ctx.quick else 12):
+        tc.append(("termcomment", info, G.comment_terminators(rng, text, 1.0), exp))
+    tc += [("termcomment", None, t, None) for t in G.SWITCH_COMMENT_CASES]
+    add("terminator_comments", tc)
     # hand-written programs with string literals that span lines (no expected tree: the expectation-free clauses only)
     add("multiline_literals", [("multiline", None, t, None) for t in G.MULTILINE_LITERALS])
     return cases, ex, hist
@@ -207,6 +219,48 @@ def correspondence(ctx, broken_obligations=()):
         v = core.Violation("; ".join(xval)[:500], path, False)
         v.coverage = cov
         raise v
+    # --- the position lookup through the REAL search_encasing_node (engine encase), against the model Encase.search and
+    #     against the property: at every position of a node's own token / name token the innermost node is that node
+    impl = core.run_lines(hb, "parse", cases)
+    ecases, expect = [], {}
+    nq = 0
+    for c, o in zip(cases, impl):
+        parts = o.split("|")
+        if len(parts) != 3:
+            continue
+        root = goldgen.shape_of_dump(parts[1], kinds)
+        qs = G.lookup_queries(root)
+        if not qs:
+            continue
+        ec = c + "|" + ",".join("%d:%d" % p for (p, _) in qs)
+        ecases.append(ec)
+        expect[ec] = [(n[0], n[3]["range"]) for (_, n) in qs]
+        nq += len(qs)
+
+    def enc_oracle(case, out):
+        if out.startswith("PANIC") or out in ("CRASH", "HANG"):
+            return "the implementation did not return normally: " + out[:200]
+        want = expect.get(case)
+        if want is None:
+            return None
+        got = out.split(";") if out else []
+        if len(got) != len(want):
+            return "search_encasing_node answered %d of %d positions" % (len(got), len(want))
+        ps = case.split("|", 1)[1].split(",")
+        for p, g, (wk, wr) in zip(ps, got, want):
+            f = g.split(":")
+            gk = kinds[int(f[0])] if 0 <= int(f[0]) < len(kinds) else "?"
+            gr = tuple(int(x) for x in f[1:5])
+            if gk != wk or gr != tuple(wr):
+                return "innermost node at position %s is %s %s, expected the %s %s whose token is there" % (p, gk, gr, wk, tuple(wr))
+        return None
+
+    cov2 = diff.differential(ctx, "encase", ecases, oracle=enc_oracle, split=lambda out: tuple(out.split("#", 1)),
+                             nontrivial=lambda c: c.count(".") >= 10, describe=lambda c: pc.dec(c.split("|", 1)[0]) + " @ " + c.split("|", 1)[1][:200])
+    cov["lookup_programs"] = cov2["programs"]
+    cov["lookup_positions"] = nq
+    cov["lookup_disagreements_checked"] = cov2["disagreements_checked"]
+    cov["lookup_oracle_failures"] = cov2["oracle_failures"]
     cov["input_histogram"] = hist
     cov["ladder"] = [[G.LEXEME[o] for o in l] for _, l in levels]
     cov["ladder_levels_exercised"] = len(levels)
